@@ -1625,7 +1625,15 @@ pub fn c07(rec: &RunRecord) -> Vec<Violation> {
                 // the restart was due (the preceding round had run past the regime's limit):
                 // the open finding; a restart before the limit is something else
                 let limit = if t.proto == Proto::Udp && t.strat == Strat::Dublin && t.v6 { u32::from(t.initial_seq) + 512 } else { 65_023 };
-                let sig = if prev_end >= limit { "c07.wrap-overlap".to_string() } else { format!("c07.early-restart-overlap.{:?}", t.proto) };
+                // an initial sequence above the documented maximum (64511) leaves no room for a
+                // round before the restart: it must not get past the builder in the first place
+                let sig = if t.initial_seq > 64_511 {
+                    "c07.overlap.initial-sequence-above-limit".to_string()
+                } else if prev_end >= limit {
+                    "c07.wrap-overlap".to_string()
+                } else {
+                    format!("c07.early-restart-overlap.{:?}", t.proto)
+                };
                 // everything else that goes wrong in such a run is a consequence
                 return vec![Violation::new(
                     "C07",
@@ -1768,6 +1776,7 @@ pub fn c15(rec: &RunRecord) -> Vec<Violation> {
     let mut default_ref = RefFlow::default();
     // rounds published since the state was last cleared
     let mut since_clear = 0usize;
+    let mut target_answered = false;
     for (k, round) in rec.rounds.iter().enumerate() {
         if k > 0 && rec.sc.clear_after_round == Some(k as u32 - 1) {
             // cleared after the previous round: identifiers, flows and counts start afresh
@@ -1908,10 +1917,40 @@ pub fn c15(rec: &RunRecord) -> Vec<Violation> {
                 }
             }
         }
+        // while the target has never answered, the reported length of a round covers every
+        // probe that was answered in it: an address seen beyond it is an address the flow
+        // of the round does not record
+        let target = t.target;
+        if !target_answered {
+            target_answered = round.probes.iter().any(|p| matches!(p, ProbeStatus::Complete(c) if c.host == target)) || round.reason == CompletionReason::TargetFound;
+        }
+        if !target_answered && rec.sc.synth.is_none() {
+            for p in &round.probes {
+                if let ProbeStatus::Complete(c) = p {
+                    if c.ttl.0 > round.largest_ttl {
+                        v.push(Violation::new(
+                            "C15",
+                            "c15.seen-beyond-recorded-length",
+                            format!("round {k}: {} answered at ttl {} but the round (and so its flow) ends at {}; the target has not answered yet", c.host, c.ttl.0, round.largest_ttl),
+                        ));
+                        break;
+                    }
+                }
+            }
+        }
         prev_flows = flows;
         if v.len() > 8 {
             break;
         }
+    }
+    // "every address seen in that round" is what the network handed over: a response booked
+    // to another probe than the one it answers puts an address at the wrong position
+    if rec.sc.synth.is_none() {
+        v.extend(
+            relabel(c01(rec), "C15", "c01.", "c15.truth.")
+                .into_iter()
+                .filter(|x| x.sig.starts_with("c15.truth.missed") || x.sig.starts_with("c15.truth.responder") || x.sig.starts_with("c15.truth.ttl") || x.sig.starts_with("c15.truth.invented")),
+        );
     }
     v
 }
@@ -2009,6 +2048,15 @@ pub fn c19(rec: &RunRecord) -> Vec<Violation> {
         if v.len() > 8 {
             break;
         }
+    }
+    // "responding hop" means a hop whose response the network handed over: a response the
+    // tracer failed to book (or booked elsewhere) hides the hop at which NAT shows
+    if applicable && rec.sc.synth.is_none() && v.is_empty() {
+        v.extend(
+            relabel(c01(rec), "C19", "c01.", "c19.truth.")
+                .into_iter()
+                .filter(|x| x.sig.starts_with("c19.truth.missed") || x.sig.starts_with("c19.truth.status") || x.sig.starts_with("c19.truth.responder") || x.sig.starts_with("c19.truth.invented")),
+        );
     }
     v
 }
